@@ -19,5 +19,6 @@ func TestWorker(t *testing.T) {
 		"C14": checkC14,
 		"C16": checkC16,
 		"C19": checkC19,
+		"C20": checkC20,
 	})
 }
